@@ -46,6 +46,7 @@ PURE_CALLS = {"len", "type", "isinstance", "issubclass", "callable", "id", "get_
               "is_union", "is_typed_dict", "is_type_var", "is_dataclass", "is_hashable", "has_type_vars"}
 
 _SHAPES: Optional[dict] = None
+MODULE_ONE_LINERS: Dict[str, ast.AST] = {}      # set by canon.directed_rewrites for the module being canonicalised
 
 
 def shapes() -> dict:
@@ -711,6 +712,13 @@ def candidates(fn, stored_attrs=frozenset()) -> List[Cand]:
         # map <-> comprehension
         if isinstance(e, ast.Call) and not e.keywords and len(e.args) == 1 and (isinstance(e.func, ast.Name) or (isinstance(e.func, ast.Attribute) and e.func.attr in CONSUMER_METHODS)):
             a = e.args[0]
+            if isinstance(a, ast.Call) and isinstance(a.func, ast.Name) and a.func.id == "map" and len(a.args) == 2 and not a.keywords and isinstance(a.args[0], ast.Lambda) \
+                    and len(a.args[0].args.args) == 1 and not a.args[0].args.defaults and not a.args[0].args.vararg and not a.args[0].args.kwarg:
+                def f(e=e, a=a):
+                    lam = a.args[0]
+                    gen = ast.comprehension(target=L(ast.Name(id=lam.args.args[0].arg, ctx=ast.Store()), a), iter=a.args[1], ifs=[], is_async=0)
+                    e.args[0] = L(ast.GeneratorExp(elt=lam.body, generators=[gen]), a)
+                out.append(("maplambda-gen", f))
             if isinstance(a, ast.Call) and isinstance(a.func, ast.Name) and a.func.id == "map" and len(a.args) == 2 and not a.keywords and isinstance(a.args[0], (ast.Name, ast.Attribute)):
                 def mk(a=a, e=e):
                     v = L(ast.Name(id="_x", ctx=ast.Load()), a)
@@ -871,6 +879,9 @@ def _loop_to_comp(st, nxt, pair_ok=None):
         return None
     kind = _empty_container(st.value)
     base = None
+    subclass_ctor = None
+    if kind is None and isinstance(st.value, ast.Call) and isinstance(st.value.func, ast.Name) and st.value.func.id in DICT_SUBCLASSES and not st.value.args and not st.value.keywords:
+        kind, subclass_ctor = "dict", st.value.func      # `x = JsonSchema()` + stores: `JsonSchema((k, v) for ...)`
     if kind is None and isinstance(st.value, ast.Call) and isinstance(st.value.func, ast.Name) and st.value.func.id == "set" and len(st.value.args) == 1 and not st.value.keywords \
             and isinstance(st.value.args[0], (ast.Name, ast.Attribute)):
         kind, base = "set", st.value.args[0]      # a copy of a set, then additions: `base | {...}`
@@ -938,6 +949,11 @@ def _loop_to_comp(st, nxt, pair_ok=None):
         gens[0].ifs.insert(0, invariant)
     new = copy.copy(st)
     new.value = L(comp, nxt)
+    if subclass_ctor is not None:
+        if not isinstance(comp, ast.DictComp):
+            return None
+        pairs = L(ast.GeneratorExp(elt=L(ast.Tuple(elts=[comp.key, comp.value], ctx=ast.Load()), nxt), generators=comp.generators), nxt)
+        new.value = L(ast.Call(func=subclass_ctor, args=[pairs], keywords=[]), nxt)
     if base is not None:
         if not isinstance(comp, ast.SetComp):
             return None
@@ -1440,9 +1456,9 @@ def inline_helpers(tree: ast.Module, known_paths: set, functions) -> int:
                             h, is_m = helpers[("meth", cls, c.func.attr)], True
                         elif isinstance(c, ast.Call) and isinstance(c.func, ast.Name) and any(("nested", p_, c.func.id) in helpers for p_ in scope_parents):
                             h, is_m = next(helpers[("nested", p_, c.func.id)] for p_ in scope_parents if ("nested", p_, c.func.id) in helpers), False
-                        elif isinstance(c, ast.Name) and isinstance(c.ctx, ast.Load) and ("fn", c.id) in helpers and not _is_call_func(head, c):
+                        elif isinstance(c, ast.Name) and isinstance(c.ctx, ast.Load) and not _is_call_func(head, c) and (("fn", c.id) in helpers or any(("nested", p_, c.id) in helpers for p_ in scope_parents)):
                             # a reference to a one-expression helper: a lambda
-                            hh = helpers[("fn", c.id)]
+                            hh = helpers[("fn", c.id)] if ("fn", c.id) in helpers else next(helpers[("nested", p_, c.id)] for p_ in scope_parents if ("nested", p_, c.id) in helpers)
                             hb = [s for s in hh.body if not (isinstance(s, ast.Expr) and isinstance(s.value, ast.Constant))]
                             if len(hb) == 1 and isinstance(hb[0], ast.Return) and hb[0].value is not None and not hh.args.defaults and not hh.decorator_list:
                                 lam = L(ast.Lambda(args=copy.deepcopy(hh.args), body=copy.deepcopy(hb[0].value)), c)
@@ -2331,6 +2347,23 @@ def candidates2(fn, stored_attrs) -> List[Cand]:
             def f(parent=parent, field=field, idx=idx, e=e):
                 _set(parent, field, idx, L(ast.ListComp(elt=e.elt, generators=e.generators), e))
             out.append(("gen-comp", f))
+        # a call of a one-expression function / method of the module -> that expression (the reference may spell it out)
+        if isinstance(e, ast.Call) and not e.keywords and MODULE_ONE_LINERS:
+            key = e.func.id if isinstance(e.func, ast.Name) else e.func.attr if isinstance(e.func, ast.Attribute) and isinstance(e.func.value, ast.Name) and e.func.value.id in ("self", "cls") else None
+            h = MODULE_ONE_LINERS.get(key) if key else None
+            if h is not None and h is not fn:
+                params = [a_.arg for a_ in h.args.args]
+                if isinstance(e.func, ast.Attribute) and params and params[0] in ("self", "cls") and not any(isinstance(d, ast.Name) and d.id == "staticmethod" for d in h.decorator_list):
+                    params = params[1:]
+                if len(params) == len(e.args) and all(isinstance(a_, (ast.Name, ast.Constant, ast.Attribute)) for a_ in e.args):
+                    def f(parent=parent, field=field, idx=idx, e=e, h=h, params=params):
+                        body = copy.deepcopy(h.body[-1].value)
+                        body = _Subst(dict(zip(params, e.args))).visit(body)
+                        for x in ast.walk(body):
+                            if hasattr(x, "lineno"):
+                                ast.copy_location(x, e)
+                        _set(parent, field, idx, body)
+                    out.append(("inline-one-liner", f))
         # F(A if c else B)  <->  F(A) if c else F(B)   (F a plain name / attribute: looking it up before or after c is the same)
         if isinstance(e, ast.Call) and len(e.args) == 1 and not e.keywords and isinstance(e.args[0], ast.IfExp) and pure(e.func):
             def f(parent=parent, field=field, idx=idx, e=e):
